@@ -27,7 +27,8 @@ META = {
                   "on the real store; every operation's effect order is validated against the model by TLC.",
     "level_note": "Crash = process death (data handed to write(2) is durable, user-space buffers are lost); "
                   "power loss / fsync ordering is not modelled. I/O errors other than 'already exists' are not "
-                  "injected, so the roll-back branches of put are not exercised. A lookup that returns an "
+                  "injected on the real store (the roll-back branches of put are model-checked in StoreFault.tla "
+                  "only; fault points verifFault exist in /repo but the replay family is not written yet). A lookup that returns an "
                   "error (neither absent nor a block) is not counted as a violation (the model predicts it "
                   "never happens; it would be reported as drift). 'partial' is instantiated on the real code "
                   "at the first / middle / last intermediate 64 KiB flush; squares: empty block, ODS width 2, "
@@ -144,6 +145,20 @@ def run(ctx):
     if rp.violated not in bad:
         ctx.inconclusive("selftest: Store_prealloc.cfg no longer violates the property: got %s" % rp.violated)
     ctx.cover(model_selftest_prealloc_detected=(rp.violated in bad))
+
+    # 2b. I/O faults (ENOSPC/EIO style failures of create/write/flush/close/link/remove/mkdir) as explicit
+    #     actions with the code's real roll-back steps (spec/store/StoreFault.tla): model level only so far --
+    #     the fault cases are NOT yet replayed on the real store (hooks verifFault exist), so this run adds
+    #     no verdict on the code; a counterexample here is reported as inconclusive, never as a violation
+    rf = ctx.tlc("store/StoreFault.tla", "store/StoreFault_cases.cfg", workers=4, deadlock=False, timeout=600,
+                 must_pass=False, count=False)
+    if rf.ok:
+        fst = rf.printed.get("FSTATE", [])
+        fcases = {json.dumps(x["fc"], sort_keys=True) for x in fst}
+        ctx.cover(model_fault_states=rf.distinct if hasattr(rf, "distinct") else len(fst),
+                  model_fault_cases=len(fcases), model_fault_case_states=len(fst))
+    elif rf.violated:
+        ctx.inconclusive("StoreFault.tla: invariant %s violated in the fault model (not reproduced on the real code)" % rf.violated)
 
     # 3. B2 + trace recording on the real code
     rnd = random.Random(ctx.seed)
